@@ -31,6 +31,8 @@ type NewStoreCase struct {
 	Client    string         `json:"client"` // svc | file
 	FileHas   []string       `json:"file_has"`
 	Misconfig string         `json:"misconfig"` // "" | nilclient | nonames | emptyname
+	ExpiryS   int            `json:"expiry_s"`  // StoreConfig.ExpiryAge in seconds (0 = none)
+	StampAgo  int            `json:"stamp_ago"` // cached entries were last accessed this many seconds ago (-1 = stamp 0)
 }
 
 var c10Pool = []string{"a", "b", "c", "d"}
@@ -55,6 +57,8 @@ func genNewStoreCase(rt *rapid.T) NewStoreCase {
 	c.Client = rapid.SampledFrom([]string{"svc", "svc", "svc", "file"}).Draw(rt, "client")
 	c.FileHas = rapid.SliceOfNDistinct(rapid.SampledFrom(append(append([]string{}, c10Pool...), "s1", "s2")), 0, 6, func(s string) string { return s }).Draw(rt, "filehas")
 	c.Misconfig = rapid.SampledFrom([]string{"", "", "", "", "", "", "nilclient", "nonames", "emptyname"}).Draw(rt, "misconfig")
+	c.ExpiryS = rapid.SampledFrom([]int{0, 0, 10, 3600}).Draw(rt, "expiry")
+	c.StampAgo = rapid.SampledFrom([]int{-1, 0, 5, 11, 100000}).Draw(rt, "stampago")
 	return c
 }
 
@@ -102,7 +106,11 @@ func runC10Bubble(dir string, c NewStoreCase, info *h.Info) *h.Violation {
 	if c.Cache != "none" {
 		doc := model.CacheDoc{}
 		for _, n := range c.Cached {
-			doc[n] = model.CacheEntry{Version: cachedVer, Value: []byte("cache-" + n), LastAccess: 0}
+			la := int64(0)
+			if c.StampAgo >= 0 {
+				la = time.Now().Unix() - int64(c.StampAgo)
+			}
+			doc[n] = model.CacheEntry{Version: cachedVer, Value: []byte("cache-" + n), LastAccess: la}
 		}
 		data := model.EncodeCache(doc)
 		if c.Cache == "invalid" {
@@ -122,7 +130,10 @@ func runC10Bubble(dir string, c NewStoreCase, info *h.Info) *h.Violation {
 		}
 		return false
 	}
-	cfg := setec.StoreConfig{Secrets: append([]string{}, c.Names...), PollInterval: time.Hour, Logf: nolog}
+	cfg := setec.StoreConfig{Secrets: append([]string{}, c.Names...), PollInterval: time.Hour, Logf: nolog, ExpiryAge: time.Duration(c.ExpiryS) * time.Second}
+	if c.ExpiryS > 0 && cacheValid && len(c.Cached) > 0 && (c.StampAgo < 0 || c.StampAgo > c.ExpiryS) {
+		info.Class("stale-stamps-with-expiry-age")
+	}
 	if cache != nil {
 		cfg.Cache = cache
 	}
